@@ -44,15 +44,7 @@ def gen_behaviours(ctx, num, depth, consts=None):
 
 
 def replay(ctx, binary, behs, prefix):
-    inp = ctx.path("replay_in.jsonl")
-    outp = ctx.path("replay_out.jsonl")
-    vlib.write_jsonl(inp, behs)
-    r = vlib.run_bin(ctx, binary, ["replay", "-in", inp, "-out", outp], timeout=1500)
-    if r["rc"] != 0:
-        raise Infra("tq replay failed: " + r["stderr"][-2000:])
-    res = vlib.read_jsonl(outp)
-    if len(res) != len(behs):
-        raise Infra("tq replay returned %d results for %d behaviours" % (len(res), len(behs)))
+    res = vlib.run_sharded(ctx, binary, behs, lambda i, o: ["replay", "-in", i, "-out", o], shards=8, timeout=1500, tag="tqreplay")
     steps = 0
     acts = {}
     distinct = set()
@@ -155,6 +147,12 @@ def check_c17(ctx):
                                                  "StopPcs": '{"select", "shortcut", "top", "get"}'})
     # Stop before the worker of a (late-created) queue is started: shutdown while the operator is still starting
     behs += gen_behaviours(ctx, max(100, num // 4), 40, consts={"StopAfterPicks": "0", "StopAfterOps": "0", "StopPcs": '{"notstarted"}'})
+    # Stop and CancelTaskDelay both while the worker sits in the wait loop: the select then has the cancelled context,
+    # the ticker and whatever CancelTaskDelay uses to wake the loop ready at once
+    both = gen_behaviours(ctx, num, 40, consts={"StopAfterPicks": "0", "StopAfterOps": "0", "StopPcs": '{"select"}', "CancelPcs": '{"select"}'})
+    both = [b for b in both if any(s["act"][0] == "CancelDelay" for s in b)]
+    ctx.cov["stop_and_cancel_in_wait_loop"] = len([b for b in both if any(s["act"][0] == "Stop" for s in b)])
+    behs += both
     behs = [b for b in behs if any(s["act"][0] == "Stop" for s in b)]
     steps, acts, distinct = replay(ctx, binary, behs, "C17/")
     stop_pcs = {}
